@@ -15,7 +15,7 @@ import GT.Model.Charts
 
 open Finset BigOperators
 
-namespace GT
+namespace GT.Circle
 
 variable {K : Type*} [Field K] {n : ℕ}
 
@@ -163,4 +163,4 @@ def horoArc (u v ref : K × K) : (K × K) × (K × K) :=
 
 end ordered
 
-end GT
+end GT.Circle
